@@ -85,6 +85,31 @@ def tol_for(n):
     return Fraction(n ** 3, 10 ** 12)
 
 
+def xerr(f, e):
+    """rounding-factor recurrence of QE.C02.gthSolve_accuracy (same as QEModel/C02.lean `xerr`;
+    the two are compared through the driver op `ebound`)"""
+    tot = 0
+    while f > 0:
+        f -= 1
+        tot += 2 * e + (f + 1) + 1 + 1 + (f + 1)
+        e = 3 * e + (f + 1) + 3
+    return tot
+
+
+def err_bound(n):
+    return 2 * xerr(n - 1, 0) + n + 1
+
+
+U = Fraction(1, 2 ** 53)
+
+
+def thm_tol(n):
+    """(1+u)^E(n) - 1 at u = 2^-53: the proved relative-error bound of the sequential (Numba) kernel in the
+    standard model (no underflow/overflow), exact as a Fraction upper bound E u / (1 - E u)"""
+    E = err_bound(n)
+    return E * U / (1 - E * U)
+
+
 def check_row(x, F, cls, pi, tol):
     """x (doubles) is the stationary vector of class cls: support, accuracy, sum, invariance. -> None | reason"""
     n = len(F)
@@ -228,6 +253,15 @@ def mk_gth_cmp(ctx, n, jit):
         for i, (a, b) in enumerate(zip(x, q)):
             if abs(Fraction(a) - b) > tol * b:
                 return "component %d outside the envelope: code %r exact %s" % (i, a, float(b))
+        if jit:
+            tt = thm_tol(n)
+            for i, (a, b) in enumerate(zip(x, q)):
+                if abs(Fraction(a) - b) > tt * b:
+                    return ("component %d outside the PROVED bound E(n)u/(1-E(n)u)=%.3e of the standard model: "
+                            "code %r exact %s" % (i, float(tt), a, float(b)))
+            worst = max([abs(Fraction(a) - b) / b for a, b in zip(x, q) if b != 0] or [Fraction(0)])
+            ctx.extra.setdefault("_worst_rel", {})
+            ctx.extra["_worst_rel"][n] = max(ctx.extra["_worst_rel"].get(n, Fraction(0)), worst)
         same = (parts["f"] == impl)
         ctx.count("fidelity:%s:%s" % ("jit" if jit else "numpy", "bit-identical" if same else "differs"))
         if jit and not same:
@@ -254,9 +288,13 @@ def mk_stat_cmp(ctx, n):
             sup = [i for i, v in enumerate(xr) if v != 0]
             if sup != C:
                 return "support differs: model class %s code %s" % (C, sup)
+            tt = thm_tol(len(C))          # gth_solve runs on the |C| x |C| restriction (Numba kernel)
             for i, (a, b) in enumerate(zip(xr, qr)):
                 if abs(Fraction(a) - b) > tol * b:
                     return "component %d outside the envelope: code %r exact %s" % (i, a, float(b))
+                if abs(Fraction(a) - b) > tt * b:
+                    return ("component %d outside the PROVED bound %.3e of the standard model (class size %d): "
+                            "code %r exact %s" % (i, float(tt), len(C), a, float(b)))
         same = (parts["f"] == impl)
         ctx.count("fidelity:stat:%s" % ("bit-identical" if same else "differs"))
         if not same:
@@ -593,9 +631,22 @@ def run(ctx):
                           {"op": "stat-csr", "n": n, "data": data, "indices": indices, "indptr": indptr,
                            "dense": A.tolist(), "got": np.asarray(S).tolist(), "expected_classes": classes})
 
-    ctx.assumptions.append("component-wise relative accuracy of the floating-point GTH algorithm (envelope 1e-12*n^3) is tested, "
-                           "not proved; theorems are about exact arithmetic")
+    # the model's E(n) (used by the theorems) and the harness's copy of the recurrence must agree
+    for k in range(1, nmax + 1):
+        cases.append(Case("C02 ebound n=%d" % k, str(err_bound(k)), nontrivial=False, tag="ebound"))
+    ctx.assumptions.append(
+        "component-wise relative accuracy: PROVED in the standard model of rounded arithmetic (QE.C02.gthSolve_accuracy: "
+        "every component within (1+u)^E(n)-1, E(1..8)=2,11,44,157,542,1847,6232,20825; gthSolve_accuracy_double: "
+        "<= 1e-12*n^3 for n<=8 at u=2^-53) for the sequential Numba kernel; ASSUMED: IEEE double arithmetic obeys the "
+        "standard model on these inputs (no underflow/overflow/subnormals), and the use_jit=False twin (NumPy pairwise "
+        "np.sum, BLAS dot: other summation orders, possibly FMA) stays inside the same envelope - that twin is tested only")
     ctx.run_cases(cases)
+    worst = ctx.extra.pop("_worst_rel", {})
+    ctx.extra["accuracy_bound_vs_envelope"] = [
+        {"n": k, "E(n)": err_bound(k), "proved_bound_u=2^-53": float(thm_tol(k)), "harness_envelope_1e-12*n^3": float(tol_for(k)),
+         "larger": "envelope" if tol_for(k) > thm_tol(k) else "proved bound",
+         "worst_observed_rel_err_jit": float(worst.get(k, 0))}
+        for k in range(1, nmax + 1)]
     jit_id = ctx.counters.get("fidelity:jit:bit-identical", 0)
     jit_all = jit_id + ctx.counters.get("fidelity:jit:differs", 0)
     np_id = ctx.counters.get("fidelity:numpy:bit-identical", 0)
